@@ -19,6 +19,8 @@ pub fn def() -> PropDef {
         needed_probes: &["c05_alive_with_handles_checked", "c05_last_drop_drain_checked", "c05_upgrade_after_last_drop", "c05_died_before_weak_dropped", "c05_registry_holder"],
         quick_runs: 30_000,
         thorough_runs: 2_000_000,
+        block: 1,
+        flavours: &["tokio"],
     }
 }
 
